@@ -548,7 +548,7 @@ def render_loop_contract(loop, probe_labels):
     return lines
 
 
-def lift_closure(text, name, captures, where, free=False, generics=""):
+def lift_closure(text, name, captures, where, free=False, generics="", uncalled=False):
     """R25 (closure conversion): `let mut NAME = |PARAMS| { BODY };` inside a function is removed, its calls
     `NAME(args)` become `Self::verif_closure_NAME(CAPTURE_ARGS, args)`, and the closure becomes the associated
     function `fn verif_closure_NAME(CAPTURE_PARAMS, PARAMS) { BODY }` (body verbatim). `captures` lists the
@@ -590,7 +590,7 @@ def lift_closure(text, name, captures, where, free=False, generics=""):
     cap_args = ", ".join(c[2] for c in captures)
     prefix = "" if free else "Self::"
     parent, n = re.subn(r"\b%s\(" % re.escape(name), "%sverif_closure_%s(%s, " % (prefix, name, cap_args), parent)
-    if n == 0:
+    if n == 0 and not uncalled:
         raise Undecided("%s: R25 closure `%s` is never called" % (where, name))
     cap_params = ", ".join("%s: %s" % (c[0], c[1]) for c in captures)
     lifted = "fn verif_closure_%s%s(%s, %s)%s\n%s\n" % (name, generics, cap_params, params.strip().rstrip(","),
@@ -631,7 +631,7 @@ def extract_fn_text(fn):
         return sf, it, text
     if lift:
         parent, lifted = lift_closure(text, lift["closure"], lift["captures"], "%s::%s" % (fn.file, fn.key),
-                                      free=lift.get("free", False), generics=lift.get("generics", ""))
+                                      free=lift.get("free", False), generics=lift.get("generics", ""), uncalled=lift.get("uncalled", False))
         text = parent if lift["part"] == "parent" else lifted
     return sf, it, text
 
